@@ -168,6 +168,18 @@ ADDED4 = {
 for _k, _v in ADDED4.items():
     CLAIMED[_k]['text'] += ' Round 4: ' + _v
 
+# rules added after round 4 and in the bug-hunt round (DESIGN.md 10.5)
+ADDED5 = {
+ 'C01': 'R11: every UPDATE of the Track row that update() reaches is followed by a rows_modified() test whose zero case throws (update() of a removed track is rejected).',
+ 'C02': 'L7: no decoder or blob read converter narrows an integer read from the blob without a dominating test of both limits of the target type.',
+ 'C03': 'S9: every value test by which a decoder rejects a blob has a counterpart on the encoder side (the encoder refuses what its decoder would refuse).',
+ 'C04': 'P2 intended-member table corrected for set_waveform; P4: update() reads the stored row or blobs before writing (necessary for keeping bytes a snapshot cannot carry; known finding).',
+ 'C15': 'U2 accepts i - k under a loop that starts at a literal >= k; U11: every floating to integer conversion has its operand proved inside the target range by dominating tests of both limits, one of which held as written (excludes NaN).',
+ 'C18': 'B10: every per-column accessor works on the type of the row field it stands for (four known findings, one root cause).',
+}
+for _k, _v in ADDED5.items():
+    CLAIMED[_k]['text'] += ' Later: ' + _v
+
 NOT_APPLICABLE = {
  'C19': 'numerical result of integer/floating arithmetic over all inputs (ceiling division, quantisation, minimality, monotonicity): no structural clause beyond the division guard, which C15-U6 covers; a sound decision needs an arithmetic solver or proof (different family)',
  'C20': 'floating-point numerical behaviour of beat-grid extrapolation (bracketing, tempo preservation, idempotence up to rounding); only the iterator arithmetic is shape-visible and is covered by C15-U3',
